@@ -125,5 +125,10 @@ View == <<stored, frozen, autoFreeze>>
 \* generation: print every behaviour of length MaxHist once, and cut there
 Emit == Len(hist) < MaxHist \/ (PrintT(<<"B", ToJson(hist)>>) /\ FALSE)
 HistBound == Len(hist) <= MaxHist
+\* simulation: exactly one printed behaviour per simulated trace (a CONSTRAINT in -simulate mode is
+\* evaluated on every candidate successor of the last state and then ends the whole run in a deadlock)
+SimNext == \/ (Len(hist) < MaxHist /\ Next)
+           \/ (Len(hist) = MaxHist /\ PrintT(<<"B", ToJson(hist)>>) /\ UNCHANGED vars)
+SimSpec == Init /\ [][SimNext]_vars
 QuerySeqOK == {QuerySeq[i] : i \in 1..Len(QuerySeq)} = Queries /\ Len(QuerySeq) = Cardinality(Queries)
 =============================================================================
